@@ -661,6 +661,15 @@ def _run_session(case):
             else:
                 violation("%s.%s:session:raises" % (cls, meth), "%s raised %s: %s" % (label, type(exc).__name__, str(exc)[:200]))
             continue
+        if isinstance(res, np.ndarray):
+            # a result that shares memory with the object's attributes or with the caller's containers is a hazard, not a wrong value: TAG
+            try:
+                if any(isinstance(v, np.ndarray) and np.shares_memory(res, v) for v in vars(L["obj"]).values()):
+                    tags.append("result-shares-memory:object-state:%s" % meth)
+                if np.shares_memory(res, arg) or any(isinstance(v, np.ndarray) and np.shares_memory(res, v) for v in [L["ycont"]] + list(L["kw"].values())):
+                    tags.append("result-shares-memory:caller-array:%s" % meth)
+            except Exception:
+                pass
         if scribble and isinstance(res, np.ndarray) and res.flags.writeable:
             scribbled.append((res, copy.deepcopy(res)))       # judged below on the copy; the caller then overwrites ITS result array
         else:
@@ -726,5 +735,5 @@ def _run_session(case):
         for name, val in L["kw"].items():
             if not _same(val, L["keep"]["kw"][name]):
                 tags.append("input-modified:%s" % ("weights" if name == "weights" else "spread"))
-    return {"nontrivial": bool(all_returned and reused_changed and not exotic), "mismatches": mism, "violations": viol, "tags": tags,
+    return {"nontrivial": bool(all_returned and reused_changed and not exotic), "mismatches": mism, "violations": viol, "tags": sorted(set(tags)),
             "sample": {"kind": "session", "cls": cls, "layout": layout, "ops": len(case["ops"]), "objects": len(live)}}
